@@ -95,8 +95,20 @@ def run(ctx, res):
     cr = R.corr(ctx.pid, "raire_rnd", R.IMPORTS, "raire_case", rnd, R.case_lit, "agree_c04", shard=40, show="show_c04")
     res.corr.append(("compute_raire_assertions output vs verified check_output / possible (RaireCheck.v), random profiles",
                      cr, R.case_json))
+    # a few LARGE profiles (10 000 - 30 000 ballots, few ballot types, one- or two-vote margins)
+    with R.untraced():
+        big = [] if rp else [R.large_case(rng) for _ in range(ctx.n(8, 60))]
+    R.run_cases(big, rng)
+    cases = cases + big
+    cr = R.corr(ctx.pid, "raire_big", R.IMPORTS, "raire_case", big, R.case_lit, "agree_c04", shard=1, show="show_c04")
+    res.corr.append(("compute_raire_assertions output vs verified check_output / possible (RaireCheck.v), large profiles",
+                     cr, R.case_json))
     # the search itself, output for output, against the fuelled model RaireAlgo.raire (exact difficulties)
     ac = R.algo_cases(ex, rng) + R.algo_cases(rnd, rng)
+    acb = R.algo_cases(big, rng)
+    cr = R.corr(ctx.pid, "algo_big", R.IMPORTS, "raire_case * list cand", acb, R.algo_lit, "agree_algo", shard=1, show="show_algo")
+    res.corr.append(("compute_raire_assertions assertion list vs RaireAlgo.raire (model of the search), large profiles", cr, R.case_json))
+    res.evaluations += len(acb)
     cr = R.corr(ctx.pid, "algo", R.IMPORTS, "raire_case * list cand", ac, R.algo_lit, "agree_algo", shard=250, show="show_algo")
     res.corr.append(("compute_raire_assertions assertion list vs RaireAlgo.raire (model of the search)", cr, R.case_json))
     res.evaluations += len(ac)
